@@ -348,6 +348,23 @@ func (m *Model) RunLayout(s *Sink, rule string) {
 			"the error is returned exactly under Program.IsLayout && Program.HasUseStmt()",
 			"a layout that itself declares @use is not rejected")
 	}
+	// the layout itself is evaluated with the data of the call: no extra scope, no extra variables
+	if eu := m.Method("evaluator", "Evaluator", "evalUseStmt"); eu != nil {
+		envParam := eu.Params[len(eu.Params)-1]
+		calls := evalCallsOnInlined(m, eu, ".Program")
+		okEnv := len(calls) > 0
+		for _, c := range calls {
+			arg := c.Call.Args[2]
+			for _, r := range m.resolveUp(arg, eu, 0) {
+				if r != ssa.Value(envParam) {
+					okEnv = false
+				}
+			}
+		}
+		check(fnKey(eu)+"|the layout is evaluated with the data of the call", m.Pos(eu.Pos()), okEnv,
+			"Eval(node.Program, env) receives the environment of the render call itself",
+			"the layout is not evaluated in the environment of the render call (a scope with extra variables shadows the caller's data, e.g. a key named like the extra variable)")
+	}
 	// evalReserveStmt: nil insert -> NIL; block/argument evaluated with the call's environment
 	er := m.Method("evaluator", "Evaluator", "evalReserveStmt")
 	if er != nil {
